@@ -281,6 +281,55 @@ Proof.
   - intros z' Hz' _. rewrite Hz' in H0. apply N.leb_le in H0. lia.
 Qed.
 
+
+(* the call rule, in propositional form *)
+Lemma call_ok_spec : forall sg sf s t, call_ok B sg sf s t = true ->
+  (forall x, an_a s = Some x -> fact_le (an_fa s) (fs_pre sf) = true /\ fs_E sf + x + 1 <= fs_E sg) /\
+  (forall y, an_b s = Some y -> fact_le (an_fb s) (fs_pre sf) = true /\ fs_E sf + y + 1 <= B) /\
+  (forall l, fs_L sf = Some l ->
+     (forall x, an_a s = Some x ->
+        exists x', an_a t = Some x' /\ x + (2 + l) <= x' /\ fact_le (an_fa s) (an_fa t) = true) /\
+     (forall y, an_b s = Some y ->
+        exists y', an_b t = Some y' /\ y + (2 + l) <= y' /\ fact_le (an_fb s) (an_fb t) = true /\
+                   (forall z', an_c t = Some z' -> exists z, an_c s = Some z /\ z + (2 + l) <= z'))) /\
+  (forall tc, fs_T sf = Some tc -> is_some (an_a s) = true \/ is_some (an_b s) = true ->
+     exists y', an_b t = Some y' /\ fact_le fact_any (an_fb t) = true /\
+       (forall x, an_a s = Some x -> x + 2 + fs_E sf + tc <= y' + fs_E sg) /\
+       (forall y, an_b s = Some y -> y + 2 + fs_E sf + tc <= y' + B) /\
+       (forall z', an_c t = Some z' ->
+          (forall x, an_a s = Some x -> x + 2 + fs_E sf + tc <= z' + fs_E sg) /\
+          (forall y, an_b s = Some y -> y + 2 + fs_E sf + tc <= z' + B))).
+Proof.
+  intros sg sf s t H. unfold call_ok in H.
+  apply andb_true_iff in H. destruct H as [H HT].
+  apply andb_true_iff in H. destruct H as [H HL].
+  apply andb_true_iff in H. destruct H as [HA HB].
+  split; [|split; [|split]].
+  - intros x Hx. rewrite Hx in HA. apply andb_true_iff in HA. destruct HA as [H1 H2].
+    apply N.leb_le in H2. split; assumption.
+  - intros y Hy. rewrite Hy in HB. apply andb_true_iff in HB. destruct HB as [H1 H2].
+    apply N.leb_le in H2. split; assumption.
+  - intros l Hl. rewrite Hl in HL. apply andb_true_iff in HL. destruct HL as [HLa HLb]. split.
+    + intros x Hx. rewrite Hx in HLa. apply andb_true_iff in HLa. destruct HLa as [H1 H2].
+      destruct (up_spec _ _ _ H1) as (x' & Hx' & Hxx). exists x'. repeat split; assumption.
+    + intros y Hy. rewrite Hy in HLb. apply andb_true_iff in HLb. destruct HLb as [H1 H3].
+      apply andb_true_iff in H1. destruct H1 as [H1 H2].
+      destruct (up_spec _ _ _ H1) as (y' & Hy' & Hyy). exists y'.
+      split; [exact Hy'|]. split; [exact Hyy|]. split; [exact H2|].
+      intros z' Hz'. rewrite Hz' in H3. apply cjust_spec. exact H3.
+  - intros tc Htc Hlive. rewrite Htc in HT. rewrite (live_not_dead _ Hlive) in HT. cbn [orb] in HT.
+    destruct (an_b t) as [y'|]; [|discriminate]. exists y'. split; [reflexivity|].
+    apply andb_true_iff in HT. destruct HT as [HT1 HT3].
+    apply andb_true_iff in HT1. destruct HT1 as [HT1 HT2].
+    apply andb_true_iff in HT2. destruct HT2 as [HT2a HT2b].
+    split; [exact HT1|]. split; [|split].
+    + intros x Hx. rewrite Hx in HT2a. apply N.leb_le in HT2a. exact HT2a.
+    + intros y Hy. rewrite Hy in HT2b. apply N.leb_le in HT2b. exact HT2b.
+    + intros z' Hz'. rewrite Hz' in HT3. apply andb_true_iff in HT3. destruct HT3 as [HT3a HT3b]. split.
+      * intros x Hx. rewrite Hx in HT3a. apply N.leb_le in HT3a. exact HT3a.
+      * intros y Hy. rewrite Hy in HT3b. apply N.leb_le in HT3b. exact HT3b.
+Qed.
+
 Ltac sframe PC T HT :=
   eapply same_frame with (pc := PC) (t := T); [eassumption | eassumption | exact HT | | reflexivity].
 
@@ -375,21 +424,21 @@ Proof.
     rewrite credit_same by reflexivity.
     pose proof (chk_func _ _ Hf') as Hcf. unfold check_func in Hcf. apply andb_true_iff in Hcf.
     destruct Hcf as [Hentry _]. unfold entry_ok in Hentry.
-    destruct (getn fn' 0) as [nd0|] eqn:Hnd0; [|discriminate]. bsplit.
-    destruct (is_some_spec _ _ H) as (x0 & Hx0). rename H0 into Hpre0.
+    destruct (getn fn' 0) as [nd0|] eqn:Hnd0; [|discriminate].
+    apply andb_true_iff in Hentry. destruct Hentry as [Hx0 Hpre0].
+    destruct (is_some_spec _ _ Hx0) as (x0 & Hx0').
     pose proof (holds_live _ _ _ _ _ _ _ _ Hh) as Hlive.
-    unfold call_ok in Hcall. bsplit.
-    rename H0 into Hca. rename H3 into Hcb. rename H2 into HcL. rename H1 into HcT.
+    destruct (call_ok_spec _ _ _ _ Hcall) as (Hca & Hcb & HcL & HcT).
     destruct Hh as (Hsuf & Hl1 & Hl2 & HE & Ha & Hb & Hc).
     pose proof (suff_length _ _ Hsuf) as Hle.
     (* the callee's entry potential and the caller's fact imply its precondition *)
     assert (Hent : fs_E (fn_spec fn') + r + 1 <= Pt /\ fact_mem (cur eof (c_toks c)) (fs_pre (fn_spec fn')) = true).
     { destruct (Nat.eq_dec (length (c_toks c)) (length toks0)) as [Heq|Hne].
-      - destruct (Ha Heq) as (x & Hx & Hpx & Hfx). fold s in Hx. rewrite Hx in Hca. bsplit.
-        apply N.leb_le in H1. split; [lia|]. eapply fact_le_spec; eassumption.
+      - destruct (Ha Heq) as (x & Hx & Hpx & Hfx). destruct (Hca _ Hx) as (Hle1 & HE1).
+        split; [lia|]. eapply fact_le_spec; eassumption.
       - assert (Hlt : (length (c_toks c) < length toks0)%nat) by lia.
-        destruct (Hb Hlt) as (y & Hy & Hpy & Hfy). fold s in Hy. rewrite Hy in Hcb. bsplit.
-        apply N.leb_le in H1. split; [lia|]. eapply fact_le_spec; eassumption. }
+        destruct (Hb Hlt) as (y & Hy & Hpy & Hfy). destruct (Hcb _ Hy) as (Hle1 & HE1).
+        split; [lia|]. eapply fact_le_spec; eassumption. }
     destruct Hent as (HentE & HentF).
     exists fn', nd0, (Pt - 1), (Pt - 1 - fs_E (fn_spec fn')), (c_toks c).
     cbn [c_f c_pc c_snap c_toks c_stack].
@@ -397,7 +446,7 @@ Proof.
     + (* the callee's entry annotation *)
       split; [apply suff_refl|]. split; [lia|]. split; [lia|]. split; [lia|].
       split; [|split].
-      * intros _. exists x0. split; [exact Hx0|]. split; [lia|]. eapply fact_le_spec; eassumption.
+      * intros _. exists x0. split; [exact Hx0'|]. split; [lia|]. eapply fact_le_spec; eassumption.
       * intros Hlt. lia.
       * intros z _ Hlt. lia.
     + (* the new suspended frame *)
@@ -412,44 +461,44 @@ Proof.
         intros Heq'. assert (Heq1 : length toks' = length (c_toks c)) by lia.
         assert (Heq : length (c_toks c) = length toks0) by lia.
         pose proof (suff_eq _ _ Hsuf' Heq1) as ->.
-        destruct (HretL eq_refl) as (l & Hl & HpL). rewrite Hl in HcL.
-        destruct (Ha Heq) as (x & Hx & Hpx & Hfx). fold s in Hx. rewrite Hx in HcL. bsplit.
-        destruct (up_spec _ _ _ H1) as (x' & Hx' & Hxx). exists x'. split; [exact Hx'|]. split; [lia|].
-        eapply fact_le_spec; eassumption.
+        destruct (HretL eq_refl) as (l & Hl & HpL).
+        destruct (Ha Heq) as (x & Hx & Hpx & Hfx).
+        destruct (HcL _ Hl) as (HcLa & _). destruct (HcLa _ Hx) as (x' & Hx' & Hxx & Hfl).
+        exists x'. split; [exact Hx'|]. split; [lia|]. eapply fact_le_spec; eassumption.
       * intros Hlt'.
         destruct (Nat.eq_dec (length toks') (length (c_toks c))) as [Heq1|Hne1].
         -- (* the callee did not consume; the caller had *)
            pose proof (suff_eq _ _ Hsuf' Heq1) as ->.
-           destruct (HretL eq_refl) as (l & Hl & HpL). rewrite Hl in HcL.
-           destruct (Hb Hlt') as (y & Hy & Hpy & Hfy). fold s in Hy. rewrite Hy in HcL. bsplit.
-           destruct (up_spec _ _ _ H1) as (y' & Hy' & Hyy). exists y'. split; [exact Hy'|]. split; [lia|].
-           eapply fact_le_spec; eassumption.
+           destruct (HretL eq_refl) as (l & Hl & HpL).
+           destruct (Hb Hlt') as (y & Hy & Hpy & Hfy).
+           destruct (HcL _ Hl) as (_ & HcLb). destruct (HcLb _ Hy) as (y' & Hy' & Hyy & Hfl & _).
+           exists y'. split; [exact Hy'|]. split; [lia|]. eapply fact_le_spec; eassumption.
         -- (* the callee consumed *)
            assert (Hlt1 : (length toks' < length (c_toks c))%nat) by lia.
-           destruct (HretT Hlt1) as (tc & Htc & HpT). rewrite Htc in HcT.
-           rewrite (live_not_dead _ Hlive) in HcT. cbn [orb] in HcT.
-           destruct (an_b t) as [y'|] eqn:Hy'; [|discriminate]. bsplit.
-           exists y'. split; [exact Hy'|]. split; [|eapply fact_le_spec; [eassumption|apply fact_any_spec]].
+           destruct (HretT Hlt1) as (tc & Htc & HpT).
+           destruct (HcT _ Htc Hlive) as (y' & Hy' & Hfl & Hba & Hbb & _).
+           exists y'. split; [exact Hy'|]. split; [|eapply fact_le_spec; [exact Hfl|apply fact_any_spec]].
            destruct (Nat.eq_dec (length (c_toks c)) (length toks0)) as [Heq|Hne].
-           ++ destruct (Ha Heq) as (x & Hx & Hpx & Hfx). fold s in Hx. rewrite Hx in H3. apply N.leb_le in H3. lia.
+           ++ destruct (Ha Heq) as (x & Hx & Hpx & Hfx). pose proof (Hba _ Hx). lia.
            ++ assert (Hlt : (length (c_toks c) < length toks0)%nat) by lia.
-              destruct (Hb Hlt) as (y & Hy & Hpy & Hfy). fold s in Hy. rewrite Hy in H4. apply N.leb_le in H4. lia.
+              destruct (Hb Hlt) as (y & Hy & Hpy & Hfy). pose proof (Hbb _ Hy). lia.
       * intros z' Hz' Hlts.
         destruct (Nat.eq_dec (length toks') (length (c_toks c))) as [Heq1|Hne1].
         -- pose proof (suff_eq _ _ Hsuf' Heq1) as ->.
-           destruct (HretL eq_refl) as (l & Hl & HpL). rewrite Hl in HcL.
+           destruct (HretL eq_refl) as (l & Hl & HpL).
            assert (Hlt : (length (c_toks c) < length toks0)%nat) by lia.
-           destruct (Hb Hlt) as (y & Hy & Hpy & Hfy). fold s in Hy. rewrite Hy in HcL. bsplit.
-           rewrite Hz' in H2. destruct (cjust_spec _ _ _ H2) as (z & Hz & Hzz).
+           destruct (Hb Hlt) as (y & Hy & Hpy & Hfy).
+           destruct (HcL _ Hl) as (_ & HcLb). destruct (HcLb _ Hy) as (y' & Hy' & Hyy & Hfl & Hcj).
+           destruct (Hcj _ Hz') as (z & Hz & Hzz).
            pose proof (Hc _ Hz Hlts). lia.
         -- assert (Hlt1 : (length toks' < length (c_toks c))%nat) by lia.
-           destruct (HretT Hlt1) as (tc & Htc & HpT). rewrite Htc in HcT.
-           rewrite (live_not_dead _ Hlive) in HcT. cbn [orb] in HcT.
-           destruct (an_b t) as [y'|] eqn:Hy'; [|discriminate]. bsplit. rewrite Hz' in H1. bsplit.
+           destruct (HretT Hlt1) as (tc & Htc & HpT).
+           destruct (HcT _ Htc Hlive) as (y' & Hy' & Hfl & _ & _ & Hbz).
+           destruct (Hbz _ Hz') as (Hza & Hzb).
            destruct (Nat.eq_dec (length (c_toks c)) (length toks0)) as [Heq|Hne].
-           ++ destruct (Ha Heq) as (x & Hx & Hpx & Hfx). fold s in Hx. rewrite Hx in H1. apply N.leb_le in H1. lia.
+           ++ destruct (Ha Heq) as (x & Hx & Hpx & Hfx). pose proof (Hza _ Hx). lia.
            ++ assert (Hlt : (length (c_toks c) < length toks0)%nat) by lia.
-              destruct (Hb Hlt) as (y & Hy & Hpy & Hfy). fold s in Hy. rewrite Hy in H5. apply N.leb_le in H5. lia.
+              destruct (Hb Hlt) as (y & Hy & Hpy & Hfy). pose proof (Hzb _ Hy). lia.
   - (* Ret *)
     destruct (c_stack c) as [|fr stk] eqn:Hstk; [discriminate|].
     inversion Hstep; subst c'; clear Hstep.
@@ -492,4 +541,176 @@ Proof.
     sframe n t Ht. eapply diff_holds; [exact He|exact Hh|exact HP|].
     destruct Hh as (_ & Hl1 & _). lia.
 Qed.
+
+(* ---------- the initial configuration ---------- *)
+Lemma init_inv : forall toks orc, inv (init P toks orc) Emain.
+Proof.
+  intros toks orc.
+  unfold check_prog in Hchk. pose proof Hchk as Hc0. apply andb_true_iff in Hc0. destruct Hc0 as [Hmain _].
+  unfold main_ok in Hmain. destruct (getf P (p_main P)) as [g|] eqn:Hg; [|discriminate].
+  apply andb_true_iff in Hmain. destruct Hmain as [Hpre HE]. apply N.leb_le in HE.
+  pose proof (chk_func _ _ Hg) as Hcf. unfold check_func in Hcf. apply andb_true_iff in Hcf.
+  destruct Hcf as [Hentry _]. unfold entry_ok in Hentry.
+  destruct (getn g 0) as [nd0|] eqn:Hnd0; [|discriminate].
+  apply andb_true_iff in Hentry. destruct Hentry as [Hx0 Hpre0].
+  destruct (is_some_spec _ _ Hx0) as (x0 & Hx0').
+  exists g, nd0, Emain, 0, toks. unfold init. cbn [c_f c_pc c_snap c_toks c_stack].
+  split; [exact Hg|]. split; [exact Hnd0|]. split; [|reflexivity].
+  split; [apply suff_refl|]. split; [lia|]. split; [lia|]. split; [lia|].
+  split; [|split].
+  - intros _. exists x0. split; [exact Hx0'|]. split; [lia|].
+    eapply fact_le_spec; [exact Hpre0|]. eapply fact_le_spec; [exact Hpre|]. apply fact_any_spec.
+  - intros Hlt. lia.
+  - intros z _ Hlt. lia.
+Qed.
+
+(* ---------- where a run can stop ---------- *)
+Lemma stuck_final : forall c Pt, inv c Pt -> step P c = None -> final P c \/ blocked P c.
+Proof.
+  intros c Pt (fn & nd & e & r & toks0 & Hf & Hn & Hh & Hst) Hstep.
+  unfold step in Hstep. rewrite Hf, Hn in Hstep.
+  destruct (nd_instr nd) as [n|m nt nf|nt nf|n1 n2|n|f n| |n|ns nd'|n] eqn:Hi; try discriminate.
+  - destruct (N.eqb (cur (p_eof P) (c_toks c)) (p_eof P)); [discriminate|].
+    destruct (pop_orc (c_orc c)); discriminate.
+  - destruct (pop_orc (c_orc c)); discriminate.
+  - destruct (c_stack c) as [|fr stk] eqn:Hstk; [|discriminate].
+    left. cbn in Hst. split; [exact Hst|]. split; [exact Hstk|].
+    exists fn, nd. repeat split; assumption.
+  - destruct (Nat.eqb (length (c_toks c)) (c_snap c)); [discriminate|].
+    destruct (pop_orc (c_orc c)); discriminate.
+  - destruct (Nat.eqb (length (c_toks c)) (c_snap c)) eqn:Hb; [|discriminate].
+    right. exists n. split; [exists fn, nd; repeat split; assumption|].
+    apply Nat.eqb_eq. exact Hb.
+Qed.
+
+Lemma step_len : forall c c', step P c = Some c' -> (length (c_toks c') <= length (c_toks c))%nat.
+Proof.
+  intros c c' H. unfold step in H.
+  destruct (getf P (c_f c)) as [fn|]; [|discriminate].
+  destruct (getn fn (c_pc c)) as [nd|]; [|discriminate].
+  destruct (nd_instr nd); cbn in H.
+  - inversion H; cbn; lia.
+  - inversion H; cbn; lia.
+  - destruct (N.eqb _ _); [inversion H; cbn; lia|]. destruct (pop_orc (c_orc c)); inversion H; cbn; lia.
+  - destruct (pop_orc (c_orc c)); inversion H; cbn; lia.
+  - inversion H; cbn. destruct (c_toks c); cbn; lia.
+  - inversion H; cbn; lia.
+  - destruct (c_stack c); [discriminate|]. inversion H; cbn; lia.
+  - inversion H; cbn; lia.
+  - destruct (Nat.eqb _ _); [inversion H; cbn; lia|]. destruct (pop_orc (c_orc c)); inversion H; cbn; lia.
+  - destruct (Nat.eqb _ _); [discriminate|]. inversion H; cbn; lia.
+Qed.
+
+(* ---------- runs ---------- *)
+Lemma run_inv : forall n c0 P0 c k,
+  inv c0 P0 -> run P n c0 = (c, k) ->
+  (length (c_toks c) <= length (c_toks c0))%nat /\
+  exists Pk, inv c Pk /\ Pk + N.of_nat k = P0 + B * N.of_nat (length (c_toks c0) - length (c_toks c)).
+Proof.
+  induction n as [|n IH]; intros c0 P0 c k Hinv Hrun; cbn in Hrun.
+  - inversion Hrun; subst. split; [lia|]. exists P0. split; [exact Hinv|].
+    rewrite Nat.sub_diag. cbn. lia.
+  - destruct (step P c0) as [c1|] eqn:Hs.
+    + destruct (run P n c1) as [c2 k2] eqn:Hr. inversion Hrun; subst c2 k; clear Hrun.
+      destruct (step_preserves _ _ _ Hinv Hs) as (HP & Hinv1).
+      pose proof (step_len _ _ Hs) as Hl1.
+      destruct (IH _ _ _ _ Hinv1 Hr) as (Hl2 & Pk & Hinvk & Hk).
+      split; [lia|]. exists Pk. split; [exact Hinvk|].
+      unfold credit in Hk.
+      assert (Hsplit : N.of_nat (length (c_toks c0) - length (c_toks c)) =
+                       N.of_nat (length (c_toks c0) - length (c_toks c1)) +
+                       N.of_nat (length (c_toks c1) - length (c_toks c))) by lia.
+      rewrite Hsplit, N.mul_add_distr_l.
+      set (X := B * N.of_nat (length (c_toks c0) - length (c_toks c1))) in *.
+      set (Y := B * N.of_nat (length (c_toks c1) - length (c_toks c))) in *.
+      clearbody X Y. lia.
+    + inversion Hrun; subst. split; [lia|]. exists P0. split; [exact Hinv|].
+      rewrite Nat.sub_diag. cbn. lia.
+Qed.
+
+Lemma run_stops : forall n c0 c k, run P n c0 = (c, k) -> (k < n)%nat -> step P c = None.
+Proof.
+  induction n as [|n IH]; intros c0 c k Hrun Hk; [lia|]. cbn in Hrun.
+  destruct (step P c0) as [c1|] eqn:Hs.
+  - destruct (run P n c1) as [c2 k2] eqn:Hr. inversion Hrun; subst c2 k; clear Hrun.
+    eapply IH; [exact Hr|lia].
+  - inversion Hrun; subst. exact Hs.
+Qed.
+
+(* ---------- the theorems ---------- *)
+Theorem linear_bound : forall toks orc n,
+  let '(c, k) := run P n (init P toks orc) in
+  N.of_nat k <= Emain + B * N.of_nat (length toks).
+Proof.
+  intros toks orc n. destruct (run P n (init P toks orc)) as [c k] eqn:Hrun.
+  destruct (run_inv _ _ _ _ _ (init_inv toks orc) Hrun) as (Hl & Pk & _ & Hk).
+  unfold init in Hk, Hl. cbn [c_toks] in Hk, Hl.
+  assert (Hm : B * N.of_nat (length toks - length (c_toks c)) <= B * N.of_nat (length toks)).
+  { apply N.mul_le_mono_l. lia. }
+  set (X := B * N.of_nat (length toks - length (c_toks c))) in *.
+  set (Y := B * N.of_nat (length toks)) in *. clearbody X Y. lia.
+Qed.
+
+Theorem halts : forall toks orc,
+  let fuel := S (N.to_nat (Emain + B * N.of_nat (length toks))) in
+  let '(c, k) := run P fuel (init P toks orc) in
+  step P c = None /\ (final P c \/ blocked P c).
+Proof.
+  intros toks orc fuel. destruct (run P fuel (init P toks orc)) as [c k] eqn:Hrun.
+  pose proof (linear_bound toks orc fuel) as Hb. rewrite Hrun in Hb.
+  assert (Hk : (k < fuel)%nat) by (unfold fuel; lia).
+  pose proof (run_stops _ _ _ _ Hrun Hk) as Hstop.
+  split; [exact Hstop|].
+  destruct (run_inv _ _ _ _ _ (init_inv toks orc) Hrun) as (_ & Pk & Hinv & _).
+  eapply stuck_final; eassumption.
+Qed.
+
+Lemma no_assume_not_blocked : forall c, no_assume P = true -> ~ blocked P c.
+Proof.
+  intros c Hna (n & (fn & nd & Hf & Hn & Hi) & _).
+  unfold no_assume in Hna. rewrite forallb_forall in Hna.
+  pose proof (Hna _ (nth_N_In _ _ _ _ Hf)) as Hg. rewrite forallb_forall in Hg.
+  pose proof (Hg _ (nth_N_In _ _ _ _ Hn)) as Hnd. rewrite Hi in Hnd. discriminate.
+Qed.
+
+Corollary halts_final : forall toks orc,
+  no_assume P = true ->
+  let fuel := S (N.to_nat (Emain + B * N.of_nat (length toks))) in
+  let '(c, k) := run P fuel (init P toks orc) in
+  step P c = None /\ final P c.
+Proof.
+  intros toks orc Hna. pose proof (halts toks orc) as H. cbv zeta in H |- *.
+  destruct (run P (S (N.to_nat (Emain + B * N.of_nat (length toks)))) (init P toks orc)) as [c k].
+  destruct H as (Hs & [Hf|Hb]).
+  - split; assumption.
+  - exfalso. eapply no_assume_not_blocked; eassumption.
+Qed.
+
 End Sound.
+
+(* The statement used by Properties/C02.v *)
+Theorem check_prog_sound : forall (sk : prog) (B Emain : N),
+  check_prog sk B Emain = true ->
+  forall (toks : list N) (orc : list bool),
+    (forall n, let '(c, k) := run sk n (init sk toks orc) in
+               N.of_nat k <= Emain + B * N.of_nat (length toks)) /\
+    (let '(c, k) := run sk (S (N.to_nat (Emain + B * N.of_nat (length toks)))) (init sk toks orc) in
+     step sk c = None /\ (final sk c \/ blocked sk c)).
+Proof.
+  intros sk B Emain H toks orc. split.
+  - intros n. apply (linear_bound sk B Emain H).
+  - apply (halts sk B Emain H).
+Qed.
+
+Theorem check_prog_sound_final : forall (sk : prog) (B Emain : N),
+  check_prog sk B Emain = true -> no_assume sk = true ->
+  forall (toks : list N) (orc : list bool),
+    (forall n, let '(c, k) := run sk n (init sk toks orc) in
+               N.of_nat k <= Emain + B * N.of_nat (length toks)) /\
+    (let '(c, k) := run sk (S (N.to_nat (Emain + B * N.of_nat (length toks)))) (init sk toks orc) in
+     step sk c = None /\ final sk c).
+Proof.
+  intros sk B Emain H Hna toks orc. split.
+  - intros n. apply (linear_bound sk B Emain H).
+  - apply (halts_final sk B Emain H toks orc Hna).
+Qed.
